@@ -54,6 +54,7 @@ class Gen:
         self._mindepth = {}
         self.force = {}           # path -> forced variant name / list length / (path + '?') -> 'Some' | 'None'
         self.flat = []            # path prefixes generated in their minimal shape regardless of depth
+        self.min_choices = {}     # enum type -> callable(path) -> list of variant names to range over where the minimal shape is used
 
     def nid(self):
         self.n += 1; return self.n
@@ -142,6 +143,9 @@ class Gen:
             forced = self.force.get(path)
             if forced is not None: vname = forced
             elif depth > 0: vname = vs[vm.fork(len(vs), note=path)]
+            elif head in self.min_choices:
+                cs = self.min_choices[head](path)
+                vname = cs[vm.fork(len(cs), note=path)] if len(cs) > 1 else cs[0]
             else: vname = self.minimal_variant(head)
             ch, vals = {}, []
             for fname, fty in self.src.variant_types[(head, vname)]:
